@@ -160,6 +160,8 @@ def _run(pid, tier, seed, replay, scratch, t0):
         log.close()
         try:
             results.append(json.load(open(out)))
+            if any(r.startswith("harness-error") for r in results[-1].get("inconclusive", [])) and s < 2:
+                sys.stderr.write("---- shard %d harness errors ----\n%s\n" % (s, open(log.name).read()[-3000:]))
         except Exception:
             tail = open(log.name).read()[-1500:]
             reasons.append("shard-%d-no-result(rc=%s)" % (s, p.returncode))
@@ -210,6 +212,8 @@ def _merge(pid, tier, seed, results, reasons, t0, replay):
             else:
                 extra.setdefault(k, v)
     total_eval = sum(evals.values())
+    if os.environ.get("VERIF_DUMP_REACHED"):
+        open(os.environ["VERIF_DUMP_REACHED"], "w").write("\n".join(sorted(reached)))
     if not replay:
         for mon, need in min_eval.items():
             if evals.get(mon, 0) < need:
@@ -286,6 +290,8 @@ def _merge(pid, tier, seed, results, reasons, t0, replay):
         print("VIOLATION property=%s replay=%s mechanism=%s :: %s" % (pid, path, m, msg[:300]))
     if unknown:
         print("  (%d violating observations, %d distinct mechanisms)" % (len(unknown), len(seen_mech)))
+        if reasons:
+            print("  also inconclusive: %s" % ";".join(sorted(set(reasons)))[:600])
         return 1
     if reasons:
         print("INCONCLUSIVE property=%s reason=%s" % (pid, ";".join(sorted(set(reasons)))[:600]))
